@@ -1,2 +1,182 @@
-(** C15 — property theorems (under construction) *)
+(** C15 — property theorems only: statement, [exact] of a lemma proved in Proofs/C15_Bv.v, [Print Assumptions].
+    Model: Model/C15_Bv.v (mirrors DenseBreedingValueMatrix + subclasses, the inherited in-place taxa operations and
+    concat_taxa, and DenseScaledMatrix).  Numbers are exact rationals, a missing value is [None]; [coleq]/[oeq] is
+    entrywise equality of possibly-missing rationals, [raw_equiv] that of raw matrices with their labels.
+    The hypotheses [loc_ok]/[sc_ok]/[params_ok]/[run_ok] are exactly the booleans the correspondence shards evaluate
+    on every step of every generated history with the location/scale the implementation produced. *)
+From Coq Require Import PrimFloat.
 From PV Require Import Lib.Common Model.C15_Bv Proofs.C15_Bv.
+Local Open Scope Q_scope.
+
+(** unscale(from_numpy(raw)) = raw for every trait column, every location/scale the run-time check accepts
+    (location ~ nanmean; scale = 1 iff the variance is exactly 0, else positive with scale^2 ~ nanvar); missing stays missing *)
+Theorem C15_unscale_from_numpy : forall (raw : list oq) (l s : oq),
+  loc_ok raw l = true -> sc_ok raw s = true -> coleq (col_unscale (col_from_numpy raw l s)) raw.
+Proof. exact unscale_from_numpy_col. Qed.
+Print Assumptions C15_unscale_from_numpy.
+
+(** a missing value stays missing and contaminates no other entry: the NaN patterns of unscale() and of the stored
+    matrix are those of the raw values *)
+Theorem C15_nan_isolated : forall (raw : list oq) (l s : oq), loc_ok raw l = true -> sc_ok raw s = true ->
+  map is_none (col_unscale (col_from_numpy raw l s)) = map is_none raw
+  /\ (forall l' s', l = Some l' -> s = Some s' -> map is_none (cdat (col_from_numpy raw l s)) = map is_none raw).
+Proof.
+  intros raw l s H1 H2. split; [now apply nan_isolated_col|]. intros l' s' -> ->. apply stored_nan_pattern.
+Qed.
+Print Assumptions C15_nan_isolated.
+
+(** maximum, minimum, range on the original scale and both arg-extrema equal those of the raw column (numpy semantics:
+    the reduction raises on an empty column, is NaN as soon as a value is missing, the first NaN wins the arg-extrema),
+    for every location and every positive scale *)
+Theorem C15_stat_commutes_extrema : forall (raw : list oq) (l s : Q), 0 < s ->
+  let c := col_from_numpy raw (Some l) (Some s) in
+  ooeq (c_max true c) (st_max raw) /\ ooeq (c_min true c) (st_min raw) /\ ooeq (c_range true c) (st_range raw)
+  /\ c_argmax c = st_argmax raw /\ c_argmin c = st_argmin raw.
+Proof.
+  intros raw l s Hs c. repeat split.
+  - now apply tmax_commutes. - now apply tmin_commutes. - now apply trange_commutes.
+  - now apply targmax_commutes. - now apply targmin_commutes.
+Qed.
+Print Assumptions C15_stat_commutes_extrema.
+
+(** tvar(unscale=True) (and the square of tstd(unscale=True)) is the variance of the raw column for every non-zero scale and
+    every location — hence 0 for a constant trait although its scale is 1 *)
+Theorem C15_stat_commutes_variance : forall (raw : list oq) (l s : Q), ~ s == 0 ->
+  ooeq (c_var true (col_from_numpy raw (Some l) (Some s))) (Some (np_var raw)).
+Proof. exact tvar_commutes. Qed.
+Print Assumptions C15_stat_commutes_variance.
+
+(** tmean(unscale=True) returns the location; for a trait without missing values and the exact location it is the raw mean *)
+Theorem C15_tmean_is_raw_mean : forall (raw : list oq) (l : Q) (s : oq) (v : list Q),
+  allsome raw = Some v -> v <> [] -> l == mean_q v ->
+  c_mean true (col_from_numpy raw (Some l) s) = Some (Some l)
+  /\ ooeq (c_mean true (col_from_numpy raw (Some l) s)) (Some (np_mean raw)).
+Proof. intros raw l s v Ha Hv Hl. split; [reflexivity|]. eapply tmean_commutes; eassumption. Qed.
+Print Assumptions C15_tmean_is_raw_mean.
+
+(** ... but it is the only NaN-aware summary: with a missing value it is finite while the maximum and the numpy mean are NaN *)
+Theorem C15_tmean_nan_refuted : exists raw l s, loc_ok raw l = true /\ sc_ok raw s = true /\
+  c_max true (col_from_numpy raw l s) = Some None /\ np_mean raw = None /\ c_mean true (col_from_numpy raw l s) = Some (Some 2).
+Proof. exact tmean_nan_refuted. Qed.
+Print Assumptions C15_tmean_nan_refuted.
+
+(** the stored column is centred and has unit variance (over the observed entries) when the location is the exact mean and
+    the scale a square root of the exact variance *)
+Theorem C15_stored_standardised : forall (raw : list oq) (l s : Q) (x : Q) (t : list Q),
+  somes raw = x :: t -> ~ s == 0 -> l == mean_q (x :: t) -> s * s == var_q (x :: t) ->
+  oeq (nanmean (cdat (col_from_numpy raw (Some l) (Some s)))) (Some 0)
+  /\ oeq (nanvar (cdat (col_from_numpy raw (Some l) (Some s)))) (Some 1).
+Proof. intros raw l s x t Hv Hs Hl Hvar. split; [eapply stored_centred | eapply stored_unit_variance]; eassumption. Qed.
+Print Assumptions C15_stored_standardised.
+
+(** a constant trait: the run-time check accepts scale 1 only, and the column is stored as zeros *)
+Theorem C15_constant_trait_unit_scale : forall (raw : list oq) (l s : Q) (x : Q) (t : list Q),
+  somes raw = x :: t -> var_q (x :: t) == 0 -> sc_ok raw (Some s) = true -> l == mean_q (x :: t) ->
+  s == 1 /\ Forall (fun m => match m with Some v => v == 0 | None => True end) (cdat (col_from_numpy raw (Some l) (Some s))).
+Proof. exact constant_trait. Qed.
+Print Assumptions C15_constant_trait_unit_scale.
+
+(** in binary64 the mean of three equal values need not be that value: from_numpy then sees a non-zero deviation,
+    hence a scale of ~1e-17 instead of 1 (the known finding C15-constant-rounding) *)
+Theorem C15_constant_float_mean_refuted : exists x : float,
+  let m := PrimFloat.div (PrimFloat.add (PrimFloat.add x x) x) 3%float in PrimFloat.eqb (PrimFloat.sub x m) 0%float = false.
+Proof. exists 0x1.999999999999ap-4%float. vm_compute. reflexivity. Qed.
+Print Assumptions C15_constant_float_mean_refuted.
+
+(** every history of select_taxa / delete_taxa / insert_taxa / adjoin_taxa (operands as arrays or as matrices, failing
+    operations leaving the matrix unchanged): the matrix reached stands for exactly the raw rows and labels obtained by
+    applying the list operations to the initial raw rows and labels *)
+Theorem C15_ops_preserve_raw : forall (r0 : rawst) (p0 : list prm) (b0 : bv) (ops : list (op * list prm)),
+  from_numpy r0 p0 = Some b0 -> params_ok (r_cols r0) p0 = true ->
+  forallb (fun x => op_copy (fst x)) ops = true -> run_ok b0 ops = true ->
+  raw_equiv (run_spec r0 (map fst ops)) (unscale (run b0 ops)).
+Proof. exact history_preserves_raw. Qed.
+Print Assumptions C15_ops_preserve_raw.
+
+(** one step: source and raw-level specification fail together or succeed together *)
+Theorem C15_step_sound : forall b o p r, op_copy o = true -> raw_equiv r (unscale b) -> step_ok b o p = true ->
+  orel (fun r' b' => raw_equiv r' (unscale b')) (raw_step opd_raw r o) (step b o p).
+Proof. exact step_sound. Qed.
+Print Assumptions C15_step_sound.
+
+(** the in-place remove_taxa keeps the raw values and labels of the retained taxa and leaves location/scale untouched ... *)
+Theorem C15_remove_preserves_retained : forall (b b' : bv) (ob : idx) (p : list prm), step b (ORemove ob) p = Some b' ->
+  Forall2 (fun c c' => delete_any (col_unscale c) ob = Some (col_unscale c') /\ cloc c' = cloc c /\ csc c' = csc c) (bcols b) (bcols b')
+  /\ olabels (fun l => delete_any l ob) (btaxa b) = Some (btaxa b') /\ olabels (fun l => delete_any l ob) (bgrp b) = Some (bgrp b').
+Proof. exact remove_preserves_raw. Qed.
+Print Assumptions C15_remove_preserves_retained.
+
+(** ... so that the location (= tmean(unscale=True)) is stale afterwards *)
+Theorem C15_remove_location_stale_refuted : exists r p b b',
+  from_numpy r p = Some b /\ params_ok (r_cols r) p = true /\ step b (ORemove (IInt 0)) [] = Some b' /\
+  params_ok (r_cols (unscale b')) (map (fun c => (cloc c, csc c)) (bcols b')) = false.
+Proof. exact remove_stale_refuted. Qed.
+Print Assumptions C15_remove_location_stale_refuted.
+
+(** appending / incorporating / concatenating does NOT preserve the raw values (inherited DenseTaxaMatrix code works on the
+    stored standardised values): witnesses *)
+Theorem C15_append_preserves_raw_refuted : exists r p b v b' r',
+  from_numpy r p = Some b /\ params_ok (r_cols r) p = true /\ step b (OAppend v) [] = Some b' /\
+  raw_step opd_raw (unscale b) (OAppend v) = Some r' /\ ~ raw_equiv r' (unscale b').
+Proof. exact append_refuted. Qed.
+Print Assumptions C15_append_preserves_raw_refuted.
+Theorem C15_incorp_preserves_raw_refuted : exists r p b v b' r',
+  from_numpy r p = Some b /\ params_ok (r_cols r) p = true /\ step b (OIncorp (IInt 0) v) [] = Some b' /\
+  raw_step opd_raw (unscale b) (OIncorp (IInt 0) v) = Some r' /\ ~ raw_equiv r' (unscale b').
+Proof. exact incorp_refuted. Qed.
+Print Assumptions C15_incorp_preserves_raw_refuted.
+Theorem C15_concat_preserves_raw_refuted : exists r p b q b' r',
+  from_numpy r p = Some b /\ params_ok (r_cols r) p = true /\ params_ok (p_cols q) (p_prm q) = true /\
+  step b (OConcat true [] [q]) [] = Some b' /\
+  raw_step opd_raw (unscale b) (OConcat true [] [q]) = Some r' /\ ~ raw_equiv r' (unscale b').
+Proof. exact concat_refuted. Qed.
+Print Assumptions C15_concat_preserves_raw_refuted.
+Theorem C15_concat_subclass_raises : forall b before after p, step b (OConcat false before after) p = None.
+Proof. exact concat_subclass_fails. Qed.
+Print Assumptions C15_concat_subclass_raises.
+
+(** guarded versions: appending the stored values of a matrix with the same location and non-zero scale is sound, and a
+    column kept with location 0 / scale 1 (what concat_taxa produces, and what from_numpy stores under these parameters) is its own raw column *)
+Theorem C15_append_same_params_partial : forall (c : tcol) (w : list oq) (l s : Q), cloc c = Some l -> csc c = Some s -> ~ s == 0 ->
+  coleq (col_unscale (mkcol (cdat c ++ cdat (col_from_numpy w (Some l) (Some s))) (cloc c) (csc c))) (col_unscale c ++ w).
+Proof. exact append_same_params_col. Qed.
+Print Assumptions C15_append_same_params_partial.
+Theorem C15_concat_zero_one_partial : forall (w : list oq),
+  coleq (col_unscale (zero_one w)) w /\ coleq (cdat (col_from_numpy w (Some 0) (Some 1))) w.
+Proof. intros w. split; [apply zero_one_unscale | apply from_numpy_zero_one]. Qed.
+Print Assumptions C15_concat_zero_one_partial.
+
+(** DenseScaledMatrix: untransform inverts transform; unscale(inplace) and rescale(inplace) keep the raw values scale*mat+location *)
+Theorem C15_scaled_untransform_transform : forall (c : tcol) (m : list oq) l s, cloc c = Some l -> csc c = Some s -> ~ s == 0 ->
+  coleq (col_untransform c (col_transform c m)) m.
+Proof. exact untransform_transform. Qed.
+Print Assumptions C15_scaled_untransform_transform.
+Theorem C15_scaled_unscale_inplace : forall (c : tcol), coleq (col_raw (col_unscale_ip c)) (col_raw c)
+  /\ cloc (col_unscale_ip c) = Some 0 /\ csc (col_unscale_ip c) = Some 1.
+Proof. exact unscale_inplace_raw. Qed.
+Print Assumptions C15_scaled_unscale_inplace.
+Theorem C15_scaled_rescale : forall (c : tcol) (l s : oq), loc_ok (col_raw c) l = true -> sc_ok (col_raw c) s = true ->
+  coleq (col_raw (col_rescale c l s)) (col_raw c).
+Proof. exact rescale_raw. Qed.
+Print Assumptions C15_scaled_rescale.
+
+(** non-vacuity: a concrete column meets the parameter checks (also one with a missing value, a constant one and an all-missing one),
+    and a concrete three-step history (select, adjoin of a matrix operand, insert of an array with an index list) meets [run_ok] *)
+Example C15_hyps_satisfiable :
+  loc_ok [Some 0; Some 2; Some 2; Some 0] (Some 1) = true /\ sc_ok [Some 0; Some 2; Some 2; Some 0] (Some 1) = true
+  /\ loc_ok [Some 1; None; Some 3] (Some 2) = true /\ sc_ok [Some 1; None; Some 3] (Some 1) = true
+  /\ sc_ok [Some 5; Some 5] (Some 1) = true /\ loc_ok [None; None] None = true /\ sc_ok [None; None] None = true
+  /\ (exists b0, from_numpy wit_raw wit_prm = Some b0 /\ params_ok (r_cols wit_raw) wit_prm = true /\
+      let ops := [(OSelect [0%Z; (-3)%Z], [(Some 1, Some 1)]);
+                  (OAdjoin (mkopd [[Some 4; Some 8]] 2 (Some [(Some 6, Some 2)]) true None None None None), [(Some (7 # 2), Some (6660913676665389 # 2251799813685248))]);
+                  (OSelect [9%Z], []);
+                  (ODelete (IList [2%Z; 3%Z]), [(Some 1, Some 1)]);
+                  (OInsert (IList [0%Z; 2%Z]) (mkopd [[Some 0; Some 2]] 2 None true None None None None), [(Some 1, Some 1)])] in
+      forallb (fun x => op_copy (fst x)) ops = true /\ run_ok b0 ops = true /\ length (r_cols (run_spec wit_raw (map fst ops))) = 1%nat).
+Proof.
+  split; [vm_compute; reflexivity|]. split; [vm_compute; reflexivity|]. split; [vm_compute; reflexivity|].
+  split; [vm_compute; reflexivity|]. split; [vm_compute; reflexivity|]. split; [vm_compute; reflexivity|].
+  split; [vm_compute; reflexivity|].
+  eexists. split; [reflexivity|]. split; [vm_compute; reflexivity|]. cbv zeta.
+  split; [reflexivity|]. split; [vm_compute; reflexivity|]. vm_compute; reflexivity.
+Qed.
